@@ -543,6 +543,20 @@ func (p *printVisitor) EnterObjectTypeExtension(ref int) {
 	p.write(p.document.ObjectTypeExtensionNameBytes(ref))
 	p.write(literal.SPACE)
 
+	if len(p.document.ObjectTypeExtensions[ref].ImplementsInterfaces.Refs) != 0 {
+		p.write(literal.IMPLEMENTS)
+		p.write(literal.SPACE)
+		for i, j := range p.document.ObjectTypeExtensions[ref].ImplementsInterfaces.Refs {
+			if i != 0 {
+				p.write(literal.SPACE)
+				p.write(literal.AND)
+				p.write(literal.SPACE)
+			}
+			p.must(p.document.PrintType(j, p.out))
+		}
+		p.write(literal.SPACE)
+	}
+
 	p.inputValueDefinitionOpener = literal.LPAREN
 	p.inputValueDefinitionCloser = literal.RPAREN
 }
@@ -751,6 +765,20 @@ func (p *printVisitor) EnterInterfaceTypeExtension(ref int) {
 	p.write(literal.SPACE)
 	p.write(p.document.InterfaceTypeExtensionNameBytes(ref))
 	p.write(literal.SPACE)
+
+	if len(p.document.InterfaceTypeExtensions[ref].ImplementsInterfaces.Refs) != 0 {
+		p.write(literal.IMPLEMENTS)
+		p.write(literal.SPACE)
+		for i, j := range p.document.InterfaceTypeExtensions[ref].ImplementsInterfaces.Refs {
+			if i != 0 {
+				p.write(literal.SPACE)
+				p.write(literal.AND)
+				p.write(literal.SPACE)
+			}
+			p.must(p.document.PrintType(j, p.out))
+		}
+		p.write(literal.SPACE)
+	}
 
 	p.inputValueDefinitionOpener = literal.LPAREN
 	p.inputValueDefinitionCloser = literal.RPAREN
